@@ -32,7 +32,7 @@ def quiet():
 # alphabet hitting every class and every regex metacharacter
 ALPHABET = ['a', 'Z', '7', ' ', '\t', '-', '_', '.', '^', ']', '\\', '[', '$', '*', '+', '(', '|',
             '{', '/', '"', "'", 'é', 'Ω', '٣', '²', 'Ⅷ', '\n', '~']
-WORDS = ['', 'a', 'ab', 'A1', 'a-b', 'a.b', 'a_b', '^', '-', '^-', ']', '\\', 'a b', ' a', 'x²', '٣٤',
+WORDS = ['a111', 'abc12345', 'xyz1', '', 'a', 'ab', 'A1', 'a-b', 'a.b', 'a_b', '^', '-', '^-', ']', '\\', 'a b', ' a', 'x²', '٣٤',
          'Ⅷ', 'é', 'a\n', '{1}', '(', 'a|b', '$', '12', 'AB', 'aB1', '1.5', '--', '..', 'a]b', '[^-]']
 
 OPTIONS = [
@@ -263,7 +263,8 @@ def gen_cases(props, tier, seed):
         base = [e for e in base if len(e) <= 4 or len(e) > 20][: (220 if tier == 'quick' else 1500)]
     for ex in base:
         if tier == 'quick':
-            ois = [0] + rnd.sample(range(1, nopt), 2)
+            # default options, variable-length fragments, and two more at random
+            ois = [0, 7] + rnd.sample([i for i in range(1, nopt) if i != 7], 2)
             sis = [0, rnd.randint(1, 5)]
         else:
             ois = range(nopt)
